@@ -142,7 +142,17 @@ func sortEigensystem(eigenvectors Matrix, eigenvalues Vector) {
     sortEigenvalues(eigenvalues)
   } else {
     p := sortEigenvalues(eigenvalues)
-    eigenvectors.PermuteColumns(p)
+    // move column p[i] to column i; p is a general permutation and cannot
+    // be applied as a sequence of interchanges (i, p[i])
+    for i := 0; i < len(p); i++ {
+      j := p[i]
+      for j < i {
+        j = p[j]
+      }
+      if j != i {
+        eigenvectors.SwapColumns(i, j)
+      }
+    }
   }
 }
 
